@@ -775,8 +775,40 @@ func attrCount(s string) int {
 
 // ---- W: OS-level write faults under the public writer
 
+// c17WriterScript is writer history k: a library history; every second one continues with a
+// reopen session in which one dataset is opened through two handles that take turns
+// modifying it (the second handle's view depends on re-reading what the first one wrote).
+func c17WriterScript(k int) *hx.Script {
+	s := c07LibScript(k)
+	if k%2 == 1 {
+		target := ""
+		for _, op := range s.Ops {
+			if op.K == "create_ds" && op.Chunk == nil && !strings.HasPrefix(op.DT, "v") {
+				target = op.Path
+				break
+			}
+		}
+		if target != "" {
+			r := ev.NewRand(17, "C17-writer-session", k)
+			mk := func() *hx.Val { v := hx.ScalarOf(r, "i32"); return &v }
+			s.Ops = append(s.Ops,
+				hx.Op{K: "close"}, hx.Op{K: "reopen"},
+				hx.Op{K: "opends", Path: target},
+				hx.Op{K: "opends", Path: target, Name: target + "#B"},
+				hx.Op{K: "attr", Path: target, Name: "sa1", Data: mk()},
+				hx.Op{K: "attr", Path: target + "#B", Name: "sb1", Data: mk()},
+				hx.Op{K: "attr", Path: target, Name: "sa2", Data: mk()},
+				hx.Op{K: "delattr", Path: target + "#B", Name: "sa1"},
+				hx.Op{K: "attr", Path: target, Name: "sa3", Data: mk()},
+				hx.Op{K: "attr", Path: target + "#B", Name: "sb2", Data: mk()},
+			)
+		}
+	}
+	return s
+}
+
 func c17WriteFaults(c *ev.Ctx, cs c17Case) {
-	s := c07LibScript(cs.seed)
+	s := c17WriterScript(cs.seed)
 	name := fmt.Sprintf("lib-history-%d", cs.seed)
 	sp := filepath.Join(c.Dir, "script.json")
 	jb, _ := json.Marshal(s)
@@ -799,101 +831,117 @@ func c17WriteFaults(c *ev.Ctx, cs c17Case) {
 		return
 	}
 	refDump := dump.File(out, dump.Options{})
-	calls := c17ParseStrace(logPath, "pwrite64")
-	if len(calls) == 0 {
-		c.Inconclusive("no pwrite64 calls observed")
-		return
-	}
-	main := calls[0].tid
-	n := 0
-	for _, cl := range calls {
-		if cl.tid == main {
-			n++
-		}
-	}
-	limit := n
-	if !c.Thorough() && limit > 200 {
-		limit = 200
-	}
 	ran, injected, swallowed := 0, 0, 0
-	for k := 1; k <= limit; k++ {
-		if (k-1)%cs.of != cs.block || c.SkipSub(k) {
+	intactLog, _ := os.ReadFile(logPath)
+	intactLogPath := filepath.Join(c.Dir, "strace.intact.log")
+	_ = os.WriteFile(intactLogPath, intactLog, 0o644)
+	type faultKind struct{ sys, errno string }
+	subBase := 0
+	for _, fk := range []faultKind{{"pwrite64", "ENOSPC"}, {"pread64", "EIO"}} {
+		calls := c17ParseStrace(intactLogPath, fk.sys)
+		if len(calls) == 0 {
+			if fk.sys == "pwrite64" {
+				c.Inconclusive("no pwrite64 calls observed")
+				return
+			}
 			continue
 		}
-		c.Mark(k, fmt.Sprintf("%s pwrite64 #%d of %d fails with ENOSPC", name, k, n))
-		_ = os.Remove(out)
-		_ = os.Remove(resPath)
-		o, err := c17Strace(logPath, out, fmt.Sprintf("pwrite64:error=ENOSPC:when=%d", k), "scriptjson", sp, out, resPath)
-		ran++
-		delivered := false
-		for _, cl := range c17ParseStrace(logPath, "pwrite64") {
-			if cl.ret < 0 {
-				delivered = true
-				break
+		main := calls[0].tid
+		n := 0
+		for _, cl := range calls {
+			if cl.tid == main {
+				n++
 			}
 		}
-		if !delivered {
-			c.Count("W:fault_not_delivered", 1)
-			continue
+		// quick tier: the first and the last 100 calls of the sequence (creation and the last
+		// session), thorough: all
+		var ks []int
+		for k := 1; k <= n; k++ {
+			if c.Thorough() || n <= 200 || k <= 100 || k > n-100 {
+				ks = append(ks, k)
+			}
 		}
-		injected++
-		fault := map[string]any{"history": name, "pwrite": k, "of": n}
-		rb, rerr := os.ReadFile(resPath)
-		if err != nil || rerr != nil {
-			c.Violation("write-fault:worker-died", map[string]any{"fault": fault, "output": trunc40(string(o))})
-			continue
-		}
-		var got resT
-		if err := json.Unmarshal(rb, &got); err != nil {
-			c.Inconclusive("faulty results: " + err.Error())
-			continue
-		}
-		reported := false
-		firstErr := -1
-		for i, r := range got.Res {
-			if r.Panic != "" {
-				k := "?"
-				if i < len(s.Ops) {
-					k = s.Ops[i].K
+		for _, k := range ks {
+			sub := subBase + k
+			if (k-1)%cs.of != cs.block || c.SkipSub(sub) {
+				continue
+			}
+			c.Mark(sub, fmt.Sprintf("%s %s #%d of %d fails with %s", name, fk.sys, k, n, fk.errno))
+			_ = os.Remove(out)
+			_ = os.Remove(resPath)
+			o, err := c17Strace(logPath, out, fmt.Sprintf("%s:error=%s:when=%d", fk.sys, fk.errno, k), "scriptjson", sp, out, resPath)
+			ran++
+			delivered := false
+			for _, cl := range c17ParseStrace(logPath, fk.sys) {
+				if cl.ret < 0 {
+					delivered = true
+					break
 				}
-				c.Violation("write-fault:panic:"+k+"@"+r.Panic, map[string]any{"fault": fault})
 			}
-			if i < len(ref.Res) && r.OK() != ref.Res[i].OK() && !reported {
-				reported, firstErr = true, i
+			if !delivered {
+				c.Count("W:fault_not_delivered", 1)
+				continue
+			}
+			injected++
+			fault := map[string]any{"history": name, "syscall": fk.sys, "call": k, "of": n}
+			rb, rerr := os.ReadFile(resPath)
+			if err != nil || rerr != nil {
+				c.Violation("write-fault:worker-died", map[string]any{"fault": fault, "output": trunc40(string(o))})
+				continue
+			}
+			var got resT
+			if err := json.Unmarshal(rb, &got); err != nil {
+				c.Inconclusive("faulty results: " + err.Error())
+				continue
+			}
+			reported := false
+			firstErr := -1
+			for i, r := range got.Res {
+				if r.Panic != "" {
+					k := "?"
+					if i < len(s.Ops) {
+						k = s.Ops[i].K
+					}
+					c.Violation("write-fault:panic:"+k+"@"+r.Panic, map[string]any{"fault": fault})
+				}
+				if i < len(ref.Res) && r.OK() != ref.Res[i].OK() && !reported {
+					reported, firstErr = true, i
+				}
+			}
+			if got.Close.Panic != "" {
+				c.Violation("write-fault:panic:close@"+got.Close.Panic, map[string]any{"fault": fault})
+			}
+			if !got.Close.OK() && ref.Close.OK() {
+				reported = true
+			}
+			if reported {
+				c.Count("W:fault_reported_by_a_call", 1)
+				_ = firstErr
+				continue
+			}
+			// no call reported the failed write: the file must be what it is without the fault
+			swallowed++
+			fd := dump.File(out, dump.Options{})
+			if fd.OpenRes.OK() != refDump.OpenRes.OK() {
+				c.Violation("write-fault:swallowed:file-unopenable", map[string]any{"fault": fault, "open": fd.OpenRes})
+				continue
+			}
+			if diff := dump.Diff(refDump, fd, nil); len(diff) > 0 {
+				c.Violation("write-fault:swallowed:content-differs:"+fk.sys, map[string]any{"fault": fault, "paths": diff, "reference": trunc40(logicalOf(refDump, diff[0])), "faulty": trunc40(logicalOf(fd, diff[0]))})
 			}
 		}
-		if got.Close.Panic != "" {
-			c.Violation("write-fault:panic:close@"+got.Close.Panic, map[string]any{"fault": fault})
-		}
-		if !got.Close.OK() && ref.Close.OK() {
-			reported = true
-		}
-		if reported {
-			c.Count("W:fault_reported_by_a_call", 1)
-			_ = firstErr
-			continue
-		}
-		// no call reported the failed write: the file must be what it is without the fault
-		swallowed++
-		fd := dump.File(out, dump.Options{})
-		if fd.OpenRes.OK() != refDump.OpenRes.OK() {
-			c.Violation("write-fault:swallowed:file-unopenable", map[string]any{"fault": fault, "open": fd.OpenRes})
-			continue
-		}
-		if diff := dump.Diff(refDump, fd, nil); len(diff) > 0 {
-			c.Violation("write-fault:swallowed:content-differs", map[string]any{"fault": fault, "paths": diff})
-		}
+		subBase += 100000
 	}
 	c.Evals(int64(ran))
-	c.Count("W:histories_under_injected_ENOSPC", int64(injected))
+	c.Count("W:histories_under_injected_ENOSPC_or_EIO", int64(injected))
 	c.Count("W:faults_no_call_reported", int64(swallowed))
-	c.Case(fmt.Sprintf("W|%s|%d/%d|n%d", name, cs.block, cs.of, n), injected > 0)
+	c.Case(fmt.Sprintf("W|%s|%d/%d|ran%d", name, cs.block, cs.of, ran), injected > 0)
 }
 
 var C17 = &ev.Property{
 	ID:    "C17",
 	Level: "fault_enumeration",
-	Rule: "seed files: the 24 fixed library-written files of C07 (quick: 12) and, of the corpus files up to 64 KiB (space T: all of them in the thorough tier, every 10th plus a cover of 8 in the quick tier), every 4th (quick: 40th) plus a greedy cover that keeps adding files while they contain a structure kind, or a kind of answer of the reader on the intact file (layout x datatype class of readable datasets, string/compound reads, datatype class of readable attribute values, many attributes), that fewer than 8 (quick: 2) chosen files contain. T: every truncation length of files up to 16 KiB, for larger files every structure boundary +-{0,1,2,7,8} and every 64th byte; R: every position k of a failing pread64 (EIO) in the I/O sequence of a complete dump through the public reader (strace injection into a worker that runs on one locked OS thread; the strace log is the ground truth of which read failed; quick: k <= 160 on a third of the seeds); C: every position k of a failing and of a short ReadAt under ReadSuperblock, ReadObjectHeader (+ attributes), ReadDatasetFloat64/Strings/Compound, LoadLocalHeap, ParseSymbolTableNode, ReadGroupBTreeEntries, ReadGlobalHeapCollection at the addresses of up to six structures of each kind per file; W: every position k of a failing pwrite64 (ENOSPC) in 6 (thorough: 24) writer histories. Oracle: each call result under the fault is an error or equals the result on the intact file; group member lists and attribute lists do not shrink; no panic, no dead worker; a write fault that no call reports must leave a file equal to the fault-free one. " +
+	Rule: "seed files: the 24 fixed library-written files of C07 (quick: 12) and, of the corpus files up to 64 KiB (space T: all of them in the thorough tier, every 10th plus a cover of 8 in the quick tier), every 4th (quick: 40th) plus a greedy cover that keeps adding files while they contain a structure kind, or a kind of answer of the reader on the intact file (layout x datatype class of readable datasets, string/compound reads, datatype class of readable attribute values, many attributes), that fewer than 8 (quick: 2) chosen files contain. T: every truncation length of files up to 16 KiB, for larger files every structure boundary +-{0,1,2,7,8} and every 64th byte; R: every position k of a failing pread64 (EIO) in the I/O sequence of a complete dump through the public reader (strace injection into a worker that runs on one locked OS thread; the strace log is the ground truth of which read failed; quick: k <= 160 on a third of the seeds); C: every position k of a failing and of a short ReadAt under ReadSuperblock, ReadObjectHeader (+ attributes), ReadDatasetFloat64/Strings/Compound, LoadLocalHeap, ParseSymbolTableNode, ReadGroupBTreeEntries, ReadGlobalHeapCollection at the addresses of up to six structures of each kind per file; W: every position k of a failing pwrite64 (ENOSPC) and of a failing pread64 (EIO) in 6 (thorough: 24) writer histories, half of which continue with a reopen session in which two handles on one dataset take turns modifying it. Oracle: each call result under the fault is an error or equals the result on the intact file; group member lists and attribute lists do not shrink; no panic, no dead worker; a write fault that no call reports must leave a file equal to the fault-free one. " +
 		"non-trivial: at least one fault was delivered; distinct = (space, seed, block).",
 	Assumptions: []string{"strace's when=k counts per thread: the workers pin the goroutine that does the I/O to one OS thread (GOMAXPROCS=1, LockOSThread) and the log is checked for a delivered fault"},
 	Cases:       func(tier string) int { return len(c17Plan(tier)) },
